@@ -23,33 +23,39 @@ CHECKS = {
         text="Lean theorems over the deep-embedded modelling language (every program incl. Vmap/Scan/Cond, every argument list, "
              "arbitrary primitive densities/samplers, weights in any additive commutative group): every trace simulate builds is structurally "
              "coherent; a coherent trace reports score = -assess(its choices) and the same return value - every program, Cond at any depth "
-             "(hypothesis: get_choices() does not raise, characterised exactly by the program's static skeleton). Tie: random typed programs executed on the real genjax (seed(simulate), assess) and on the compiled "
+             "(hypothesis: get_choices() does not raise, characterised exactly by the program's static skeleton). THE SAMPLING HALF: with every site drawing from a finite distribution (simD, which collapses to simulate for point masses and whose density assessP is exp of assess), the probability that simulate's choice map is x "
+             "equals the product of the site masses assess computes, the return value is assess's, total mass 1 - for every program incl. Cond whose branches have the same static shape "
+             "(proved counterexample for branches of different shape = open finding cond-mixed-shape-law). Tie: random typed programs executed on the real genjax (seed(simulate), assess) and on the compiled "
              "Lean model with exact-rational probe distributions, plus an independent reference semantics.",
-        note=TB + "C01: the sampling half (choices distributed by that density) rests on the sampler contract of the primitives (C13/C07); "
-             "probe samplers are deterministic functions of their parameters so the model can predict every draw.",
+        note=TB + "C01: the law theorem is about finite-support primitives; that each real primitive sampler draws from its logpdf is the sampler contract (C13/C07), checked "
+             "by chi-square on discrete programs (incl. Scan followed by further sites and a second Scan); probe samplers are deterministic so the model can predict every draw; "
+             "kwargs are modelled as positional arguments, checked by keyword/positional twin programs; open findings vmap-kwargs-raise, cond-mixed-shape-law.",
         technique="Lean 4 proof (mutual structural induction on programs) + differential correspondence on generated programs",
         design="§3 C01"),
     "C02": dict(
         text="Lean theorems: generate returns a coherent trace for every constraint map; weight 0 without constraints; weight = minus the scores "
-             "of exactly the constrained leaves (GF.cw) for every program; score = -assess(choices) for every program incl. Cond. Tie: generate on the real code for "
+             "of exactly the constrained leaves (GF.cw) for every program; score = -assess(choices) for every program incl. Cond; every constrained address holds the constrained value and every other value is the sampler's draw for the parameters computed from the trace; generate with a covering constraint IS assess; in the finite-distribution "
+             "semantics generate is properly weighted and E[weight] = sum over completions of the joint mass (Cond-free programs). Tie: generate on the real code for "
              "all/none/partial constraint subsets of generated programs vs the Lean model and the reference semantics.",
-        note=TB + "C02: E[exp w] = marginal is not formalised (follows from the weight identity plus the sampler contract).",
+        note=TB + "C02: the expected-weight theorems are proved for Cond-free programs (for Cond with same-shape branches checked on instances; mixed-shape branches refuted); kwargs by twin programs.",
         technique="Lean 4 proof + differential correspondence over constraint subsets",
         design="§3 C02"),
     "C03": dict(
         text="Lean theorems: update returns a coherent trace under the new args; weight = score(old) - score(new) for every program incl. Cond branch "
              "switches (repaired code = spec variant) and for the pre-repair variant when no Cond switches; in assess terms (w = log p(new) - log p(old)) "
-             "for every program incl. Cond switches. "
+             "for every program incl. Cond switches; VALUES: constrained addresses hold the new values, every other address keeps its old visible value - also across a "
+             "branch switch (repaired Cond.update; the pre-repair behaviour is characterised and shown to expose the hidden branch's stale value), the discard is leaf for leaf the old "
+             "visible choice map, and updating back with the discard and the old arguments restores the original choices with the negated weight. "
              "Tie: update sequences with arg changes / constraint subsets / discard round trip on the real code vs model and reference.",
-        note=TB + "C03: 'keeps unconstrained values' and the discard round trip are checked by the monitors on the implementation, not proved.",
+        note=TB + "C03: the round-trip theorem takes definedness of the second update as a hypothesis; open finding vmap-trace-no-wrapper (trace.update on a top-level Vmap trace); kwargs by twin programs.",
         technique="Lean 4 proof + differential correspondence incl. round trips",
         design="§3 C03"),
     "C04": dict(
         text="Lean theorems: regenerate returns a coherent trace; weight formula (change of joint minus change of selected prior) when no Cond "
              "switches; empty selection + same args => weight 0 and the identical trace (canonical traces; all ops produce canonical traces); all "
-             "selected => weight 0; proved counterexamples for the dropped hypotheses; pre-repair Scan.regenerate undefined. Tie: regenerate with "
+             "selected => weight 0; proved counterexamples for the dropped hypotheses; pre-repair Scan.regenerate undefined; VALUES: every unselected address is unchanged, every selected leaf holds the sampler's draw for the parameters of the NEW trace, the discard holds exactly the old values of the selected addresses. Tie: regenerate with "
              "generated selection expressions on the real code (incl. definedness) vs model and reference.",
-        note=TB + "C04: 'selected choices are fresh draws from the conditional prior' is checked with probe samplers by the monitors.",
+        note=TB + "C04: 'fresh draw' is stated for the deterministic probe sampler (P.draw); distributional freshness is the sampler contract; open finding kwarg-name-collision.",
         technique="Lean 4 proof + differential correspondence over selections",
         design="§3 C04"),
     "C05": dict(
@@ -92,11 +98,12 @@ CHECKS = {
     "C20": dict(
         text="Lean theorems (any commutative semiring/field; all K, M, T>=1, zeros allowed): the forward recursion's last message and marginal "
              "equal brute-force summation over all state sequences; the filter is normalised; backward sampling returns a sequence with "
-             "probability joint/marginal. Scalar Kalman update proved to be exact Bayes (completing the square + normaliser). Tie: rational "
+             "probability joint/marginal. Kalman: the MATRIX update (any dimensions, d_obs != d_state) is exact Bayesian conditioning - covariance forms (Joseph, symmetric), precision form P'^-1 = P^-1 + C^T R^-1 C with the natural-parameter and gain identities, completing the square for every x, det P det R = det S det P', pointwise N(x;m,P) N(y;Cx,R) = N(y-Cm;0,S) N(x;m',P') and its log form (= the log-marginal increment), positive (semi)definiteness along the whole run (every inv is a genuine inverse), reduction to the executable scalar model, and the RTS "
+             "smoother step as the same conditioning with (C,R,y) := (A,Q,x_{t+1}). Tie: rational "
              "HMMs on forward_filter / compute_sequence_log_prob / iterated discrete_hmm vs the exact-rational Lean model and float64 brute "
              "force; backward_sample law by chi-square; kalman_filter/smoother and iterated linear_gaussian vs conditioning the dense joint "
              "Gaussian (d_obs != d_state included).",
-        note=TB + "C20: the matrix Kalman recursion and the RTS smoother are NOT proved (partial): they are tied by the numpy float64 dense-Gaussian oracle only; log/exp and float32 rounding are compared with tolerances.",
+        note=TB + "C20: the matrix Kalman definitions are noncomputable (Mathlib inverse): they mirror the code line by line and reduce to the executable scalar model, the code itself is tied by the numpy float64 dense-Gaussian oracle; the T-step marginal likelihood as an integral of the joint is not formalised (one-step Bayes identity + invariants along the run are); log/exp and float32 rounding are compared with tolerances.",
         technique="Lean 4 + Mathlib proof (HMM full, Kalman scalar) + differential correspondence with brute-force / dense-Gaussian oracles",
         design="§3 C20"),
     "C06": dict(
